@@ -16,6 +16,9 @@ HEADERS = [
     ("two", ["Summary line of the thing.", "", "Longer description that explains", "the thing over two lines."]),
     ("bullets", ["Summary line of the thing.", "", "It does:", "- first item", "- second item"]),
     ("colon_end", ["Summary line of the thing.", "", "The options are as follows:"]),
+    # paragraphs of different indentation: an indented block (formula, code sample) right after the summary, then ordinary prose - and the other order
+    ("block_first", ["Summary line of the thing.", "", "    y = A * x + b", "", "where A is the matrix and", "b is the offset."]),
+    ("block_last", ["Summary line of the thing.", "", "The model is linear:", "", "    y = A * x + b"]),
     # header prose that *mentions* the words the section scanners look for
     ("returns_prose", ["Summary line of the thing.", "", "Returns: nothing useful, the list itself is modified", "in place by the thing."]),
     ("parameters_prose", ["Summary line of the thing.", "", "Parameters of the thing are listed further down;", "the return value is described last."]),
